@@ -12,6 +12,7 @@ from .c04 import make_obj, GEAR, DEV, INST
 from .c12 import get_map
 
 NOARG, NONINT, IBCAST, IUNADDR = 9999, -7777, -1000, -1001
+WRONGOBJ, FLOATP = -7001, -7002      # an address object of the other kind / a float where a number is expected
 CARRIERS = {"102.UnknownGearCommand", "103.UnknownDeviceCommand", "Command", "103.UnknownEvent",
             "103.AmbiguousInstanceType"}
 
@@ -26,7 +27,12 @@ def _real(x):
     return make_obj(x)
 
 
-def _p(p):
+def _p(p, gear=True):
+    if p == WRONGOBJ:
+        from dali import address
+        return address.DeviceShort(5) if gear else address.GearShort(5)
+    if p == FLOATP:
+        return 5.0
     return "x" if p == NONINT else p
 
 
@@ -47,18 +53,20 @@ def construct(tbl, row, cls, dest, inst, p):
             return cls(address=_p(p))
         return cls() if p == NOARG else cls(_p(p))
     if tbl == "dev":
-        return cls(_real(dest)) if p == NOARG else cls(_real(dest), _p(p))
+        return cls(_real(dest)) if p == NOARG else cls(_real(dest), _p(p, False))
     if tbl == "inst":
-        return cls(_real(dest), _real(inst)) if p == NOARG else cls(_real(dest), _real(inst), _p(p))
+        return cls(_real(dest), _real(inst)) if p == NOARG else cls(_real(dest), _real(inst), _p(p, False))
     if tbl == "devspecial":
         fl = row[4]
         if "2" in fl:
             if p == NONINT:
                 return cls("x", 0)
+            if p in (WRONGOBJ, FLOATP):
+                return cls(_p(p, False), 0)
             if p < 0:
                 return cls(-1, 0)
             return cls(p >> 8, p & 255)
-        return cls() if p == NOARG else cls(_p(p))
+        return cls() if p == NOARG else cls(_p(p, False))
     raise AssertionError(tbl)
 
 
@@ -173,16 +181,16 @@ def build(tier, seed):
     rng = random.Random(seed)
     t = core.spec_tables()
     pv = cmdrec.pvals
-    byte_all = list(range(-1, 257)) + [NONINT]
-    byte_q = sorted({-1, 0, 1, 2, 127, 128, 254, 255, 256} | {rng.randrange(256) for _ in range(16)}) + [NONINT]
+    byte_all = list(range(-1, 257)) + [NONINT, WRONGOBJ, FLOATP]
+    byte_q = sorted({-1, 0, 1, 2, 127, 128, 254, 255, 256} | {rng.randrange(256) for _ in range(16)}) + [NONINT, WRONGOBJ, FLOATP]
     pv("none", [NOARG])
     pv("none+", [NOARG, 0, NONINT])
-    pv("nibble", [-1] + list(range(16)) + [16, NOARG, NONINT])
+    pv("nibble", [-1] + list(range(16)) + [16, NOARG, NONINT, WRONGOBJ, FLOATP])
     pv("byte", byte_all if tier == "thorough" else byte_q)
-    pv("short", [-1] + list(range(64)) + [64, 127, 255, NONINT])
-    pv("init", [IBCAST, IUNADDR, -1] + list(range(64)) + [64, NONINT])
+    pv("short", [-1] + list(range(64)) + [64, 127, 255, NONINT, WRONGOBJ, FLOATP])
+    pv("init", [IBCAST, IUNADDR, -1] + list(range(64)) + [64, NONINT, WRONGOBJ, FLOATP])
     two_q = sorted({0, 1, 255, 256, 257, 65535, 0xFE00, 0x00FE} | {rng.randrange(65536) for _ in range(64)})
-    pv("two", (list(range(65536)) if tier == "thorough" else two_q) + [65536, 65536 + 7, -1, NONINT])
+    pv("two", (list(range(65536)) if tier == "thorough" else two_q) + [65536, 65536 + 7, -1, NONINT, WRONGOBJ, FLOATP])
     ill_gear = [["int", -1], ["int", 64], ["dshort", 5], ["dgroup", 3], ["dbcast", 0], ["dunaddr", 0], ["other", 0]]
     ill_dev = [["int", 5], ["gshort", 5], ["ggroup", 3], ["gbcast", 0], ["gunaddr", 0], ["other", 0]]
     gear_dests = GEAR + [["int", n] for n in range(64)] + ill_gear
